@@ -4,7 +4,7 @@ C04 / C10 — model of the client negotiation state machine of `QXmppOutgoingCli
 base/QXmppStreamManagement.cpp `StreamAckManager`, and the parts of `QXmppClient` /
 `QXmppRosterManager` that react to `connected`).
 
-The model follows the code that exists (tree after the fixes e0bbad9, fa0779c, 7771c2d, 7a677f2, e363fe9, c590ae4, 7c60ff5):
+The model follows the code that exists (tree after the fixes e0bbad9, fa0779c, 7771c2d, 7a677f2, e363fe9, c590ae4, 7c60ff5, a739aa9):
 * `handleStream` starts XEP-0078 authentication on a header without `version` — unless TLS is required and the link is
   not encrypted: then it warns and disconnects;
 * the idle listener rejects every jabber:client element (iq, message, presence) received on an unencrypted link when TLS is
@@ -357,7 +357,8 @@ def handleFeatures (s : St) (f : Features) : R :=
       match (if s.cfg.useSasl then f.mechs else none) with
       | some m => startSasl s m
       | none =>
-        if f.legacyAuth ∧ s.cfg.useNonSasl then startNonSaslAuth s
+        -- a legacy login is not followed by another features element: the CSI feature of this one is stored (a739aa9)
+        if f.legacyAuth ∧ s.cfg.useNonSasl then startNonSaslAuth { s with csiAvail := f.csi }
         else
           let s1 := { s with bindAvail := f.bind, smAvail := f.sm, csiAvail := f.csi }
           if s1.smAvail ∧ ¬ s1.smEnabled ∧ s1.canResume then startSmResume s1
